@@ -840,12 +840,12 @@ void File::uncompressedFileReadThread(File * file) {
             if (!file->m_uncompressedFile.good())
                 file->m_uncompressedFileThreadRunning = false;
         }
-
-        /* set end of file */
-        file->m_readWriteQueue.setFileSize(file->m_readWriteQueue.tellp());
     } catch (...) {
         file->m_uncompressedFileThreadException = std::current_exception();
     }
+
+    /* set end of file (also after an unexpected exception, e.g. std::bad_alloc: the reader must not wait forever) */
+    file->m_readWriteQueue.setFileSize(file->m_readWriteQueue.tellp());
 }
 
 void File::uncompressedFileWriteThread(File * file) {
@@ -880,12 +880,12 @@ void File::compressedFileReadThread(File * file) {
             if (!file->m_compressedFile.good())
                 file->m_compressedFileThreadRunning = false;
         }
-
-        /* set end of file */
-        file->m_uncompressedFile.setFileSize(file->m_uncompressedFile.tellp());
     } catch (...) {
         file->m_compressedFileThreadException = std::current_exception();
     }
+
+    /* set end of file (also after an unexpected exception, e.g. std::bad_alloc: the parser must not wait forever) */
+    file->m_uncompressedFile.setFileSize(file->m_uncompressedFile.tellp());
 }
 
 void File::compressedFileWriteThread(File * file) {
